@@ -154,7 +154,7 @@ Section Unquote.
           change (c :: x ++ esc q (raws l) ++ q :: rest) with ((c :: x) ++ esc q (raws l) ++ q :: rest).
           change (c :: x ++ esc q (raws l)) with ((c :: x) ++ esc q (raws l)).
           rewrite !app_length. lia.
-        * cbn [app length] in Hf. lia.
+        * cbn [app length] in Hf. rewrite app_length in Hf. lia.
   Qed.
 
   Lemma index_byte_exists : forall a rest, exists e, index_byte q (a ++ q :: rest) = Some e.
@@ -170,23 +170,23 @@ Section Unquote.
     need_unquote (firstn e (esc q v ++ q :: rest)) = false -> esc q v = v /\ e = length v.
   Proof.
     induction v as [|c v IH]; intros e rest Hi Hn.
-    - cbn in Hi. rewrite N.eqb_refl in Hi. inversion Hi. split; reflexivity.
+    - unfold esc in Hi. cbn [flat_map app index_byte] in Hi. rewrite N.eqb_refl in Hi.
+      injection Hi as <-. split; reflexivity.
     - unfold esc in *. cbn [flat_map] in *. fold (esc q v) in *. unfold esc1 in *.
       destruct (is_special q c) eqn:Hs.
       + exfalso. cbn [app index_byte] in Hi.
         replace (92 =? q) with false in Hi by (symmetry; apply N.eqb_neq; destruct Hq; subst; lia).
-        destruct (match index_byte q (c :: esc q v ++ q :: rest) with Some n => Some (S n) | None => None end)
-          as [n|] eqn:E; [|discriminate].
-        destruct (index_byte q (c :: esc q v ++ q :: rest)); [|discriminate].
-        inversion E; subst. inversion Hi; subst. cbn [app firstn] in Hn.
+        cbv iota in Hi.
+        match type of Hi with match ?X with _ => _ end = _ => destruct X as [n|]; [|discriminate] end.
+        injection Hi as <-. cbn [app firstn] in Hn.
         rewrite need_unquote_cons in Hn. discriminate.
       + cbn [app index_byte] in Hi.
         assert (Hcq : (c =? q) = false).
         { unfold is_special in Hs. apply orb_false_iff in Hs. destruct Hs as [Hs _].
           apply orb_false_iff in Hs. tauto. }
-        rewrite Hcq in Hi.
-        destruct (index_byte q (esc q v ++ q :: rest)) as [n|] eqn:E; [|discriminate].
-        inversion Hi; subst. cbn [app firstn] in Hn. rewrite need_unquote_cons in Hn.
+        rewrite Hcq in Hi. cbv iota in Hi.
+        destruct (index_byte q (esc q v ++ q :: rest)) as [n|] eqn:E; cbv iota in Hi; [|discriminate].
+        injection Hi as <-. cbn [app firstn] in Hn. rewrite need_unquote_cons in Hn.
         apply orb_false_iff in Hn. destruct Hn as [_ Hn].
         destruct (IH n rest E Hn) as [H1 H2]. cbn [app]. rewrite H1, H2. split; reflexivity.
   Qed.
@@ -217,3 +217,203 @@ Section Unquote.
       rewrite firstn_app_len, skipn_app_len1. reflexivity.
   Qed.
 End Unquote.
+
+(* ------------------------------------------------------------------ lexer.Next on a rendered literal *)
+Section NextQ.
+  Variables is_space is_letter is_digit : N -> bool.
+  Variable q : N.
+  Hypothesis Hq : qok q.
+  Hypothesis Hq_space : is_space q = false.
+  Hypothesis Hq_tok : is_token_rune is_letter is_digit q = false.
+
+  (* Next, standing at the opening quote: one quoted token whose text is the value, the tail is what follows the
+     closing quote — whatever it is *)
+  Lemma next_render_q : forall v rest sp f, valid_utf8 v = true ->
+    next is_space is_letter is_digit (S f) (render_q q v ++ rest) sp = ROk (mkTok v true false sp, rest).
+  Proof.
+    intros v rest sp f Hv. pose proof (q_lt q Hq) as Hl.
+    pose proof (unquote_render q Hq v rest Hv) as Hu.
+    unfold render_q in *. cbn [app] in *.
+    cbn [next]. rewrite (dec1_ascii q _ Hl).
+    replace (q =? RuneError) with false by (symmetry; apply N.eqb_neq; unfold RuneError; lia).
+    cbn [skip_spaces length]. rewrite (dec1_ascii q _ Hl). rewrite Hq_space. cbn [rbind].
+    rewrite (dec1_ascii q _ Hl).
+    replace (q =? 35) with false by (destruct Hq; subst; reflexivity).
+    cbn [scan_token length]. rewrite (dec1_ascii q _ Hl). rewrite Hq_tok. cbn [rbind nonempty].
+    replace (q =? 42) with false by (destruct Hq; subst; reflexivity).
+    replace ((q =? 39) || (q =? 34)) with true by (destruct Hq; subst; reflexivity).
+    rewrite Hu. reflexivity.
+  Qed.
+End NextQ.
+
+(* ------------------------------------------------------------------ the token stream of `name:LIT` *)
+(* a field name the harness writes bare: ASCII letters, digits, '_' and '.', not empty *)
+Definition name_byte (b : N) : bool := is_alnum_ascii b || (b =? 95) || (b =? 46).
+Definition simple_name (n : list N) : bool := nonempty n && forallb name_byte n.
+
+Section LexPlain.
+  Variables is_space is_letter is_digit : N -> bool.
+  Hypothesis H_name_tok : forall b, name_byte b = true -> is_token_rune is_letter is_digit b = true.
+  Hypothesis H_name_space : forall b, name_byte b = true -> is_space b = false.
+  Hypothesis H_colon : is_space 58 = false /\ is_token_rune is_letter is_digit 58 = false.
+  Hypothesis H_quotes : forall q, qok q -> is_space q = false /\ is_token_rune is_letter is_digit q = false.
+
+  Lemma name_byte_lt : forall b, name_byte b = true -> b < 128.
+  Proof. intros b H. unfold name_byte, is_alnum_ascii in H. brk; try lia; discriminate. Qed.
+
+  Lemma scan_name : forall n fuel acc c rest, forallb name_byte n = true ->
+    is_token_rune is_letter is_digit c = false -> c < 128 -> (length n < fuel)%nat ->
+    scan_token is_letter is_digit fuel (n ++ c :: rest) acc = ROk (acc ++ n, c :: rest).
+  Proof.
+    induction n as [|b n IH]; intros fuel acc c rest Hn Hc Hl Hf.
+    - destruct fuel; [lia|]. cbn [app scan_token]. rewrite (dec1_ascii c _ Hl), Hc, app_nil_r. reflexivity.
+    - cbn [forallb] in Hn. apply andb_true_iff in Hn. destruct Hn as [Hb Hn].
+      destruct fuel; [cbn in Hf; lia|]. cbn [app scan_token].
+      rewrite (dec1_ascii b _ (name_byte_lt b Hb)), (H_name_tok b Hb).
+      rewrite IH by (try assumption; cbn in Hf; lia). rewrite <- app_assoc. reflexivity.
+  Qed.
+
+  (* Next on `name:...` gives the name *)
+  Lemma next_name : forall n rest f, simple_name n = true ->
+    next is_space is_letter is_digit (S f) (n ++ 58 :: rest) false = ROk (mkTok n false false false, 58 :: rest).
+  Proof.
+    intros n rest f Hn. unfold simple_name in Hn. apply andb_true_iff in Hn. destruct Hn as [Hne Hn].
+    destruct n as [|b n]; [discriminate|].
+    pose proof Hn as Hn'. cbn [forallb] in Hn'. apply andb_true_iff in Hn'. destruct Hn' as [Hb _].
+    pose proof (name_byte_lt b Hb) as Hl.
+    cbn [app next]. rewrite (dec1_ascii b _ Hl).
+    replace (b =? RuneError) with false by (symmetry; apply N.eqb_neq; unfold RuneError; lia).
+    cbn [skip_spaces]. rewrite (dec1_ascii b _ Hl), (H_name_space b Hb). cbn [rbind].
+    rewrite (dec1_ascii b _ Hl).
+    replace (b =? 35) with false
+      by (symmetry; apply N.eqb_neq; intros ->; unfold name_byte, is_alnum_ascii in Hb; cbn in Hb; discriminate).
+    change (b :: n ++ 58 :: rest) with ((b :: n) ++ 58 :: rest).
+    rewrite (scan_name (b :: n) _ [] 58 rest Hn (proj2 H_colon)) by (try lia; rewrite app_length; cbn [length]; lia).
+    cbn [rbind app nonempty]. reflexivity.
+  Qed.
+
+  Lemma next_colon : forall rest f,
+    next is_space is_letter is_digit (S f) (58 :: rest) false = ROk (mkTok [58] false false false, rest).
+  Proof.
+    intros rest f. destruct H_colon as [Hs Ht].
+    cbn [next]. rewrite (dec1_ascii 58 rest) by lia.
+    change (58 =? RuneError) with false. cbv iota.
+    cbn [skip_spaces]. rewrite (dec1_ascii 58 rest) by lia. rewrite Hs. cbn [rbind].
+    rewrite (dec1_ascii 58 rest) by lia. change (58 =? 35) with false. cbv iota.
+    cbn [scan_token]. rewrite (dec1_ascii 58 rest) by lia. rewrite Ht. cbn [rbind nonempty].
+    reflexivity.
+  Qed.
+
+  (* the whole query `name:<q-quoted v>` *)
+  Lemma lex_plain_q : forall q n v, qok q -> simple_name n = true -> valid_utf8 v = true ->
+    lex is_space is_letter is_digit (n ++ 58 :: render_q q v)
+    = ROk [mkTok n false false false; mkTok [58] false false false; mkTok v true false false].
+  Proof.
+    intros q n v Hq Hn Hv. unfold lex.
+    assert (Hne : n <> []) by (intros ->; discriminate).
+    cbn [lex_all]. rewrite (next_name n (render_q q v) _ Hn). cbn [rbind].
+    replace (is_end (mkTok n false false false) (58 :: render_q q v)) with false by reflexivity.
+    destruct (length (n ++ 58 :: render_q q v)) as [|k] eqn:El.
+    { rewrite app_length in El. cbn [length] in El. lia. }
+    cbn [lex_all]. rewrite next_colon. cbn [rbind].
+    replace (is_end (mkTok [58] false false false) (render_q q v)) with false by reflexivity.
+    destruct k as [|k].
+    { rewrite app_length in El. unfold render_q in El. cbn [length] in El. rewrite app_length in El. cbn [length] in El. lia. }
+    cbn [lex_all].
+    destruct (H_quotes q Hq) as [Hs Ht].
+    pose proof (next_render_q is_space is_letter is_digit q Hq Hs Ht v [] false (length (render_q q v)) Hv) as Hx.
+    rewrite app_nil_r in Hx. rewrite Hx. cbn [rbind].
+    replace (is_end (mkTok v true false false) []) with false by (unfold is_end; cbn; destruct v; reflexivity).
+    destruct k as [|k].
+    { rewrite app_length in El. unfold render_q in El. cbn [length] in El. rewrite app_length in El. cbn [length] in El. lia. }
+    cbn [lex_all next dec1 step]. change (RuneError =? RuneError) with true. cbv iota. cbn [rbind].
+    reflexivity.
+  Qed.
+End LexPlain.
+
+(* ------------------------------------------------------------------ the parser on these tokens *)
+Definition name_ok (n : list N) : bool := simple_name n && negb (list_eqb_N (fold_norm n) kw_not).
+Definition searchable (t : ttype) : bool := match t with TyKeyword | TyText | TyPath => true | _ => false end.
+
+Lemma fold_norm_ascii_hd : forall b n, b < 128 ->
+  fold_norm (b :: n) = (if (65 <=? b) && (b <=? 90) then b + 32 else b) :: fold_norm n.
+Proof.
+  intros b n Hb. cbn [fold_norm].
+  replace (b =? 197) with false by (symmetry; apply N.eqb_neq; lia).
+  replace (b =? 226) with false by (symmetry; apply N.eqb_neq; lia). cbn [andb].
+  destruct n as [|c1 [|c2 t2]]; reflexivity.
+Qed.
+
+Lemma replace_wild_ascii : forall n, forallb (fun b => b <? 128) n = true -> replace_wild n = n.
+Proof.
+  induction n as [|c t IH]; intros H; [reflexivity|].
+  cbn [forallb] in H. apply andb_true_iff in H. destruct H as [Hc Ht]. apply N.ltb_lt in Hc.
+  cbn [replace_wild]. rewrite (IH Ht).
+  replace (c =? 238) with false by (symmetry; apply N.eqb_neq; lia). cbn [andb].
+  destruct t as [|c1 [|c2 t2]]; reflexivity.
+Qed.
+
+Section ParsePlain.
+  Variables is_space is_letter is_digit is_number : N -> bool.
+  Variable to_lower : N -> N.
+  Hypothesis H_name_tok : forall b, name_byte b = true -> is_token_rune is_letter is_digit b = true.
+  Hypothesis H_colon_tok : is_token_rune is_letter is_digit 58 = false.
+
+  Lemma single_filter_plain : forall ftype sens n v t lits,
+    name_ok n = true -> ftype n = t -> searchable t = true ->
+    query_lits is_letter is_number to_lower t (sens || list_eqb_N n K_EXISTS) v = Some lits ->
+    single_filter is_letter is_digit is_number to_lower ftype sens
+      [mkTok n false false false; mkTok [58] false false false; mkTok v true false false]
+    = ROk (QPlain lits).
+  Proof.
+    intros ftype sens n v t lits Hn Hft Hs Hq.
+    unfold name_ok in Hn. apply andb_true_iff in Hn. destruct Hn as [Hsn Hnot].
+    unfold simple_name in Hsn. apply andb_true_iff in Hsn. destruct Hsn as [Hne Hall].
+    destruct n as [|b n']; [discriminate|].
+    pose proof Hall as Hall'. cbn [forallb] in Hall'. apply andb_true_iff in Hall'. destruct Hall' as [Hb Hn'].
+    assert (Hbl : b < 128) by (unfold name_byte, is_alnum_ascii in Hb; brk; try lia; discriminate).
+    assert (Hascii : forallb (fun b => b <? 128) (b :: n') = true).
+    { apply forallb_forall. intros x Hx. rewrite forallb_forall in Hall. specialize (Hall x Hx).
+      apply N.ltb_lt. unfold name_byte, is_alnum_ascii in Hall. brk; try lia; discriminate. }
+    set (b' := if (65 <=? b) && (b <=? 90) then b + 32 else b).
+    assert (Hb'1 : b' <> 238 /\ b' <> 40).
+    { subst b'. unfold name_byte, is_alnum_ascii in Hb. brk; split; lia. }
+    unfold single_filter. cbn [cur].
+    assert (Hk1 : is_kw wildcard_bytes (mkTok (b :: n') false false false) = false).
+    { unfold is_kw, wildcard_bytes. cbn [t_quoted t_txt negb andb]. rewrite (fold_norm_ascii_hd b n' Hbl). fold b'.
+      cbn [list_eqb_N list_eqb]. replace (b' =? 238) with false by (symmetry; apply N.eqb_neq; tauto). reflexivity. }
+    assert (Hk2 : is_kw kw_lp (mkTok (b :: n') false false false) = false).
+    { unfold is_kw, kw_lp. cbn [t_quoted t_txt negb andb]. rewrite (fold_norm_ascii_hd b n' Hbl). fold b'.
+      cbn [list_eqb_N list_eqb]. replace (b' =? 40) with false by (symmetry; apply N.eqb_neq; tauto). reflexivity. }
+    assert (Hk3 : is_kw kw_not (mkTok (b :: n') false false false) = false).
+    { unfold is_kw. cbn [t_quoted t_txt negb andb]. apply negb_true_iff in Hnot. exact Hnot. }
+    rewrite Hk1, Hk2, Hk3. cbn [orb].
+    (* the field name *)
+    unfold parse_composite at 1. cbn [cur tl].
+    assert (Hk0 : is_kw [] (mkTok (b :: n') false false false) = false).
+    { unfold is_kw. cbn [t_quoted t_txt negb andb]. rewrite (fold_norm_ascii_hd b n' Hbl). reflexivity. }
+    rewrite Hk0.
+    assert (Hc1 : is_composite is_letter is_digit (mkTok (b :: n') false false false) = true).
+    { unfold is_composite. rewrite Hk0. cbn [t_txt t_quoted]. rewrite (dec1_ascii b n' Hbl).
+      rewrite (H_name_tok b Hb). cbn [orb]. destruct (Nat.ltb 1 (length n')); reflexivity. }
+    rewrite Hc1. cbn [negb].
+    assert (Hc2 : is_composite is_letter is_digit (mkTok [58] false false false) = false).
+    { unfold is_composite, is_kw. cbn [t_txt t_quoted negb andb fold_norm list_eqb_N list_eqb].
+      rewrite (dec1_ascii 58 []) by lia. cbn [length Nat.ltb Nat.leb orb]. rewrite H_colon_tok. reflexivity. }
+    cbn [join_composite t_space negb andb]. rewrite Hc2. cbn [t_txt].
+    rewrite (replace_wild_ascii _ Hascii). rewrite Hft.
+    destruct t; try discriminate;
+    ( cbn [cur tl];
+      replace (is_kw kw_colon (mkTok [58] false false false)) with true by reflexivity;
+      cbn [negb];
+      replace (is_kw [] (mkTok v true false false)) with false by reflexivity;
+      replace (is_kws [kw_lb; kw_lp] (mkTok v true false false)) with false by reflexivity;
+      replace (is_kw kw_in (mkTok v true false false)) with false by reflexivity;
+      unfold fulltext, parse_composite; cbn [cur tl];
+      replace (is_kw [] (mkTok v true false false)) with false by reflexivity;
+      replace (is_composite is_letter is_digit (mkTok v true false false)) with true
+        by (unfold is_composite, is_kw; cbn [t_txt t_quoted negb andb]; destruct v as [|x v']; [reflexivity|];
+            destruct (dec1 (x :: v')) as [[r raw] rest]; rewrite orb_true_r; reflexivity);
+      cbn [negb join_composite rbind t_txt]; rewrite Hq; cbn [rbind finish]; reflexivity ).
+  Qed.
+End ParsePlain.
